@@ -23,6 +23,48 @@ pub struct Tableau {
     value_offset: f64,
 }
 
+/// Thread-local pivot recorder for verification harnesses: when enabled, every
+/// pivot performed by `Tableau::pivot` (shared by all simplex drivers, including
+/// the phase-one run inside `into_tableau`) is recorded with the tableau it
+/// was applied to.
+#[cfg(feature = "verif_hooks")]
+pub mod verif_pivots {
+    use super::Tableau;
+    use std::cell::RefCell;
+
+    #[derive(Debug, Clone)]
+    pub struct RecordedPivot {
+        pub before: Tableau,
+        pub entering: usize,
+        pub leaving_row: usize,
+        pub after: Tableau,
+    }
+
+    thread_local! {
+        static RECORDER: RefCell<Option<Vec<RecordedPivot>>> = const { RefCell::new(None) };
+    }
+
+    pub fn start() {
+        RECORDER.with(|r| *r.borrow_mut() = Some(Vec::new()));
+    }
+
+    pub fn take() -> Vec<RecordedPivot> {
+        RECORDER.with(|r| r.borrow_mut().take().unwrap_or_default())
+    }
+
+    pub(super) fn enabled() -> bool {
+        RECORDER.with(|r| r.borrow().is_some())
+    }
+
+    pub(super) fn record(pivot: RecordedPivot) {
+        RECORDER.with(|r| {
+            if let Some(list) = r.borrow_mut().as_mut() {
+                list.push(pivot);
+            }
+        });
+    }
+}
+
 impl Display for Tableau {
     fn fmt(&self, f: &mut fmt::Formatter<'_>) -> fmt::Result {
         let values = self
@@ -283,6 +325,8 @@ impl Tableau {
     }
     //performs the pivot operation where variable h enters the basis and variable B(t) leaves the basis
     fn pivot(&mut self, t: usize, h: usize) -> Result<(), ()> {
+        #[cfg(feature = "verif_hooks")]
+        let verif_before = verif_pivots::enabled().then(|| self.clone());
         let in_basis = &mut self.in_basis;
         let a = &mut self.a;
         let b = &mut self.b;
@@ -313,6 +357,15 @@ impl Tableau {
         b[t] /= pivot;
         //update the basis
         in_basis[t] = h;
+        #[cfg(feature = "verif_hooks")]
+        if let Some(before) = verif_before {
+            verif_pivots::record(verif_pivots::RecordedPivot {
+                before,
+                entering: h,
+                leaving_row: t,
+                after: self.clone(),
+            });
+        }
         Ok(())
     }
     pub fn current_value(&self) -> f64 {
